@@ -8,11 +8,15 @@ package lib
 // The decision table is ENUMERATED: every combination of message fields (address-family support,
 // registrant encoding, source, transport, generation, pre-scanned flag, covert address, registrar
 // overrides) × station configuration (v4/v6 enabled, phantom blocklist, share-over-API) × liveness
-// verdict goes through the real parseRegMessage + ingestRegistration, twice (the second pass is the
-// duplicate path).  Observed: GetRegistrations(phantom), the detector announce closures (stubbed),
-// the calls on an injected liveness tester, the requests the peer-share client makes (recording
-// http.RoundTripper).  The oracle is the property's iff, computed from how the cell was constructed
-// (never from the code's or the model's output).
+// verdict goes through the real parseRegMessage + ingestRegistration, followed by a SECOND message of
+// the same session: the identical message, or one with the pre-scanned flag flipped, the covert address
+// swapped, the source swapped, or the copy a peer station would share.  On top of the table a
+// one-factor slice flips ONE dimension at a time, through every value the harness knows (including the
+// ones the table only reaches in the thorough tier), from admitted base cells on every station.
+// Observed: GetRegistrations(phantom), the detector announce closures (stubbed), the calls on an
+// injected liveness tester, the requests the peer-share client makes (recording http.RoundTripper).
+// The oracle is the property's iff, computed from how the cell was constructed (never from the code's
+// or the model's output).
 
 import (
 	"bytes"
@@ -26,6 +30,7 @@ import (
 	"os"
 	"path/filepath"
 	"runtime"
+	"strconv"
 	"strings"
 	"sync"
 	"testing"
@@ -76,6 +81,7 @@ var c07Gens = []struct {
 // phantom blocklists of the table: nothing, every IPv4 phantom subnet, every IPv6 phantom subnet
 var c07Blocklists = [][]string{nil, {"192.122.0.0/16"}, {"2001:48a8:687f::/48"}}
 
+// registrant encodings (new entries are appended: the index is part of the replay format)
 var c07Registrants = []struct {
 	name      string
 	b         []byte // nil = absent
@@ -87,9 +93,14 @@ var c07Registrants = []struct {
 	{"v6", net.ParseIP("2001:db8:77::5"), true, false, false},
 	{"len5", []byte{1, 2, 3, 4, 5}, false, false, false},
 	{"v4-geoerr", []byte{203, 0, 113, 66}, true, true, true},
+	{"v4", []byte{203, 0, 113, 9}, true, true, false},
+	{"empty", []byte{}, false, false, false}, // present, zero bytes
+	{"len17", []byte{1, 2, 3, 4, 5, 6, 7, 8, 9, 10, 11, 12, 13, 14, 15, 16, 17}, false, false, false},
+	{"v4-zero", []byte{0, 0, 0, 0}, true, true, false},
 }
 
-var c07Sources = []pb.RegistrationSource{pb.RegistrationSource_API, pb.RegistrationSource_Detector, pb.RegistrationSource_DetectorPrescan, pb.RegistrationSource_Unspecified}
+var c07Sources = []pb.RegistrationSource{pb.RegistrationSource_API, pb.RegistrationSource_Detector, pb.RegistrationSource_DetectorPrescan, pb.RegistrationSource_Unspecified,
+	pb.RegistrationSource_BidirectionalAPI, pb.RegistrationSource_DNS, pb.RegistrationSource_BidirectionalDNS}
 
 // transports of the table: an enabled one with good parameters, a transport the station does not
 // enable, the enabled one with parameters it cannot parse, a second enabled transport
@@ -112,7 +123,9 @@ var c07Coverts = []struct {
 }{{"192.0.2.77:443", true}, {"10.1.2.3:443", false}, {"no port here", false}}
 
 // registrar overrides of the table; inside = the override address lies in the blocklisted range of
-// its family; ok = it is an address of the family it overrides
+// its family; v6OK = the IPv6 override (if any) is an address of that family; tparams: the response
+// carries transport parameters (1 = parameters the transport parses, without port randomisation;
+// 2 = parameters of the wrong type)
 type c07Override struct {
 	name               string
 	port               *uint32
@@ -120,6 +133,7 @@ type c07Override struct {
 	v6                 []byte
 	v4Inside, v6Inside bool
 	v6OK               bool
+	tparams            int
 }
 
 func c07u32(v uint32) *uint32 { return &v }
@@ -130,13 +144,36 @@ var c07Overrides = []c07Override{
 	{name: "v6-len3", v6: []byte{1, 2, 3}, v6OK: false},
 	{name: "outside", v4: c07u32(0xC6336407), v6: net.ParseIP("2001:db8:9::1"), v6OK: true},
 	{name: "v6=v4mapped", v6: net.ParseIP("198.51.100.9").To16(), v6OK: false},
+	{name: "v4=0", v4: c07u32(0), v6OK: true}, // present and ignored
+	{name: "port0", port: c07u32(0), v6OK: true},
+	{name: "port65535", port: c07u32(65535), v6OK: true},
+	{name: "port70000", port: c07u32(70000), v6OK: true}, // cast to uint16
+	{name: "v6-empty", v6: []byte{}, v6OK: false},        // present, zero bytes
+	{name: "tparams-good", v6OK: true, tparams: 1},
+	{name: "tparams-bad", v6OK: true, tparams: 2},
+	{name: "v6=v4mapped-inside", v6: net.ParseIP("192.122.190.77").To16(), v6OK: false},
 }
+
+func (ov c07Override) present() bool { return ov.port != nil || ov.v4 != nil || ov.v6 != nil || ov.tparams != 0 }
+
+// the IPv4 override is applied only when it is present and not zero
+func (ov c07Override) v4Applied() bool { return ov.v4 != nil && *ov.v4 != 0 }
 
 type c07Station struct {
 	e4, e6, share bool
 	block         int
 	live          bool
 }
+
+// second message of the session
+const (
+	c07DupSame       = 0 // the identical message
+	c07DupPrescanned = 1 // pre-scanned flag flipped
+	c07DupCovert     = 2 // covert address swapped between allowed and forbidden
+	c07DupSource     = 3 // source swapped (Detector → API, anything else → Detector)
+	c07DupPeerShare  = 4 // the copy a peer station shares: source DetectorPrescan, pre-scanned
+	c07DupKinds      = 5
+)
 
 type c07Cell struct {
 	garbage, payload bool
@@ -149,6 +186,32 @@ type c07Cell struct {
 	prescanned       bool
 	covert           int
 	override         int
+	disableOv        bool // disable_registrar_overrides
+	dup              int  // what the second message of the session is
+}
+
+// second returns the second message of the session
+func (c c07Cell) second() c07Cell {
+	d := c
+	switch c.dup {
+	case c07DupPrescanned:
+		d.prescanned = !c.prescanned
+	case c07DupCovert:
+		if c.covert == 0 {
+			d.covert = 1
+		} else {
+			d.covert = 0
+		}
+	case c07DupSource:
+		if c.source == 1 {
+			d.source = 0
+		} else {
+			d.source = 1
+		}
+	case c07DupPeerShare:
+		d.source, d.prescanned = 2, true
+	}
+	return d
 }
 
 func (st c07Station) String() string {
@@ -156,10 +219,11 @@ func (st c07Station) String() string {
 }
 
 func (c c07Cell) String() string {
-	return fmt.Sprintf("%s%s%s%s.%d.%d.%d.%d.%d.%s.%d.%d", vlib.B(c.garbage), vlib.B(c.payload), vlib.B(c.v4s), vlib.B(c.v6s), c.registrant, c.source, c.transport, c.gen, c.libver,
-		vlib.B(c.prescanned), c.covert, c.override)
+	return fmt.Sprintf("%s%s%s%s.%d.%d.%d.%d.%d.%s.%d.%d.%s.%d", vlib.B(c.garbage), vlib.B(c.payload), vlib.B(c.v4s), vlib.B(c.v6s), c.registrant, c.source, c.transport, c.gen, c.libver,
+		vlib.B(c.prescanned), c.covert, c.override, vlib.B(c.disableOv), c.dup)
 }
 
+// c07ParseReplay reads `<station>/<cell>`; the cell has 9 (older replays) or 11 dot-separated fields.
 func c07ParseReplay(s string) (c07Station, c07Cell, error) {
 	var st c07Station
 	var c c07Cell
@@ -169,11 +233,27 @@ func c07ParseReplay(s string) (c07Station, c07Cell, error) {
 	}
 	b := func(ch byte) bool { return ch == '1' }
 	st = c07Station{e4: b(p[0][0]), e6: b(p[0][1]), share: b(p[0][2]), block: int(p[0][3] - '0'), live: b(p[0][4])}
-	var flags, ps string
-	if _, err := fmt.Sscanf(strings.ReplaceAll(p[1], ".", " "), "%s %d %d %d %d %d %s %d %d", &flags, &c.registrant, &c.source, &c.transport, &c.gen, &c.libver, &ps, &c.covert, &c.override); err != nil || len(flags) != 4 {
-		return st, c, fmt.Errorf("bad replay %q: %v", s, err)
+	f := strings.Split(p[1], ".")
+	if (len(f) != 9 && len(f) != 11) || len(f[0]) != 4 {
+		return st, c, fmt.Errorf("bad replay %q", s)
 	}
-	c.garbage, c.payload, c.v4s, c.v6s, c.prescanned = b(flags[0]), b(flags[1]), b(flags[2]), b(flags[3]), ps == "1"
+	num := func(x string) int {
+		n, err := strconv.Atoi(x)
+		if err != nil {
+			n = -1
+		}
+		return n
+	}
+	c.garbage, c.payload, c.v4s, c.v6s = b(f[0][0]), b(f[0][1]), b(f[0][2]), b(f[0][3])
+	c.registrant, c.source, c.transport, c.gen, c.libver = num(f[1]), num(f[2]), num(f[3]), num(f[4]), uint32(num(f[5]))
+	c.prescanned, c.covert, c.override = f[6] == "1", num(f[7]), num(f[8])
+	if len(f) == 11 {
+		c.disableOv, c.dup = f[9] == "1", num(f[10])
+	}
+	if c.registrant < 0 || c.registrant >= len(c07Registrants) || c.source < 0 || c.source >= len(c07Sources) || c.transport < 0 || c.transport >= len(c07Transports) ||
+		c.gen < 0 || c.gen >= len(c07Gens) || c.covert < 0 || c.covert >= len(c07Coverts) || c.override < 0 || c.override >= len(c07Overrides) || c.dup < 0 || c.dup >= c07DupKinds || st.block > 2 {
+		return st, c, fmt.Errorf("bad replay %q: index out of range", s)
+	}
 	return st, c, nil
 }
 
@@ -182,7 +262,7 @@ func c07ParseReplay(s string) (c07Station, c07Cell, error) {
 
 type c07Event struct {
 	seq     int
-	kind    byte // 'P' probe, 'S' share, 'A' announce
+	kind    byte // 'P' probe, 'S' share, 'A' announce, 'U' update
 	phantom string
 	port    int
 	proto   int
@@ -209,6 +289,17 @@ func (r *c07Recorder) take() []c07Event {
 	e := r.evs
 	r.evs = nil
 	return e
+}
+
+func (r *c07Recorder) has(kind byte) bool {
+	r.mu.Lock()
+	defer r.mu.Unlock()
+	for _, e := range r.evs {
+		if e.kind == kind {
+			return true
+		}
+	}
+	return false
 }
 
 type c07Live struct {
@@ -283,7 +374,9 @@ func (w *c07World) manager(st c07Station) *RegistrationManager {
 	}
 	conf := &RegConfig{EnableIPv4: st.e4, EnableIPv6: st.e6, EnableShareOverAPI: st.share, PreshareEndpoint: c07Endpoint,
 		PhantomBlocklist: c07Blocklists[st.block], CovertBlocklistSubnets: []string{"10.0.0.0/8"}}
-	conf.ParseBlocklists()
+	if err := conf.ParseBlocklists(); err != nil {
+		w.t.Fatal(err)
+	}
 	rm := NewRegistrationManager(conf)
 	if rm == nil {
 		w.t.Fatal("NewRegistrationManager returned nil")
@@ -317,10 +410,37 @@ func (w *c07World) reset(rm *RegistrationManager) {
 	w.rec.take()
 }
 
-// quiesce waits until the goroutines started by ingest (the peer-share request) have finished.
-func (w *c07World) quiesce() {
-	for i := 0; i < 200000; i++ {
-		if runtime.NumGoroutine() <= w.base {
+// quiesce waits until the goroutines started by ingest (the peer-share request) have finished. When
+// the cell is expected to share, it first waits for the request to be recorded; then for the goroutine
+// count to be back at the idle level. The idle level is the lowest count ever seen; a count that stays
+// above it without moving for a long stretch (a goroutine some library started lazily) becomes the
+// new idle level instead of an error.
+func (w *c07World) quiesce(expectShare bool) {
+	if expectShare && !w.rec.has('S') {
+		deadline := time.Now().Add(2 * time.Second)
+		for !w.rec.has('S') && time.Now().Before(deadline) {
+			runtime.Gosched()
+			time.Sleep(10 * time.Microsecond)
+		}
+		if !w.rec.has('S') {
+			w.out.Count("quiesce:expected-share-not-seen")
+		}
+	}
+	last, stable := -1, 0
+	for i := 0; ; i++ {
+		n := runtime.NumGoroutine()
+		if n <= w.base {
+			w.base = n
+			return
+		}
+		if n == last {
+			stable++
+		} else {
+			last, stable = n, 0
+		}
+		if stable >= 3000 { // ≥ 60 ms without any change
+			w.out.Count("quiesce:idle-level-raised")
+			w.base = n
 			return
 		}
 		if i < 1000 {
@@ -329,7 +449,6 @@ func (w *c07World) quiesce() {
 			time.Sleep(20 * time.Microsecond)
 		}
 	}
-	w.t.Fatalf("goroutines started by ingest did not finish (%d > %d)", runtime.NumGoroutine(), w.base)
 }
 
 func (c c07Cell) wrapper(secret []byte) *pb.C2SWrapper {
@@ -344,6 +463,9 @@ func (c c07Cell) wrapper(secret []byte) *pb.C2SWrapper {
 	}
 	if c.prescanned {
 		c2s.Flags = &pb.RegistrationFlags{Prescanned: proto.Bool(true)}
+	}
+	if c.disableOv {
+		c2s.DisableRegistrarOverrides = proto.Bool(true)
 	}
 	var params proto.Message
 	switch {
@@ -373,8 +495,25 @@ func (c c07Cell) wrapper(secret []byte) *pb.C2SWrapper {
 		wr.RegistrationAddress = b
 	}
 	ov := c07Overrides[c.override]
-	if ov.port != nil || ov.v4 != nil || ov.v6 != nil {
-		wr.RegistrationResponse = &pb.RegistrationResponse{DstPort: ov.port, Ipv4Addr: ov.v4, Ipv6Addr: ov.v6}
+	if ov.present() {
+		rr := &pb.RegistrationResponse{DstPort: ov.port, Ipv4Addr: ov.v4, Ipv6Addr: ov.v6}
+		var rp proto.Message
+		switch {
+		case ov.tparams == 2:
+			rp = &pb.DTLSTransportParams{RandomizeDstPort: proto.Bool(true)} // wrong type
+		case ov.tparams == 1 && tr.tt == pb.TransportType_Prefix:
+			rp = &pb.PrefixTransportParams{PrefixId: proto.Int32(0), RandomizeDstPort: proto.Bool(false)}
+		case ov.tparams == 1:
+			rp = &pb.GenericTransportParams{RandomizeDstPort: proto.Bool(false)}
+		}
+		if rp != nil {
+			a, err := anypb.New(rp)
+			if err != nil {
+				panic(err)
+			}
+			rr.TransportParams = a
+		}
+		wr.RegistrationResponse = rr
 	}
 	return wr
 }
@@ -429,6 +568,82 @@ type c07Fam struct {
 	kind string
 }
 
+// wire builds the model's description of one message: its decision-relevant fields and what the
+// libraries answer for it (real calls). ok = the selector kept its contract (SelectorFam).
+func (w *c07World) wire(rm *RegistrationManager, st c07Station, c c07Cell, secret []byte) (wire string, selectorOK bool) {
+	if c.garbage {
+		return "G", true
+	}
+	selectorOK = true
+	wr := c.wrapper(secret)
+	var c2s *pb.ClientToStation
+	if c.payload {
+		c2s = wr.RegistrationPayload
+	}
+	libver := uint(c2s.GetClientLibVersion())
+	keys, err := core.GenSharedKeys(libver, secret, c2s.GetTransport())
+	if err != nil {
+		w.t.Fatal(err)
+	}
+	sel := func(v6 bool) string {
+		p, err := rm.PhantomSelector.Select(keys.ConjureSeed, uint(c2s.GetDecoyListGeneration()), libver, v6)
+		if err != nil {
+			return "-"
+		}
+		// the selector hands out an address of the requested family (C14); the theorems and the
+		// expectations of this harness rely on it (assumption SelectorFam)
+		if (p.IP().To4() == nil) != v6 || p.IP().To16() == nil {
+			selectorOK = false
+		}
+		return hex.EncodeToString(*p.IP()) + "/" + vlib.B(p.SupportRandomPort())
+	}
+	verdict := func(t Transport, a *anypb.Any) (ok, port string) {
+		ok, port = "0", "-"
+		params, err := t.ParseParams(libver, a)
+		if err == nil {
+			ok = "1"
+			if p, err := t.GetDstPort(libver, keys.ConjureSeed, params); err == nil {
+				port = fmt.Sprint(p)
+			}
+		}
+		return
+	}
+	paramsOK, tpPort, protoN, ident := "0", "-", 0, "00"
+	rrOK, rrPort := "0", "-"
+	if t, ok := rm.registeredDecoys.transports[c2s.GetTransport()]; ok {
+		paramsOK, tpPort = verdict(t, c2s.GetTransportParams())
+		if rp := wr.GetRegistrationResponse().GetTransportParams(); rp != nil {
+			rrOK, rrPort = verdict(t, rp)
+		}
+		protoN = int(t.GetProto())
+		ident = hex.EncodeToString([]byte(t.GetIdentifier(&DecoyRegistration{Keys: &keys, Transport: c2s.GetTransport()})))
+	}
+	covertStr, _ := rm.ParseOrResolveBlocklisted(c2s.GetCovertAddress())
+	rg := c07Registrants[c.registrant]
+	geoOK := !(c07Geo{}).isErr(net.IP(rg.b))
+	rr := "-"
+	if ov := c07Overrides[c.override]; ov.present() {
+		f := []string{"-", "-", c07OptHex(ov.v6), vlib.B(ov.tparams != 0)}
+		if ov.port != nil {
+			f[0] = fmt.Sprint(*ov.port)
+		}
+		if ov.v4 != nil {
+			f[1] = fmt.Sprint(*ov.v4)
+		}
+		rr = strings.Join(f, ":")
+	}
+	src := 0
+	if wr.RegistrationSource != nil {
+		src = int(*wr.RegistrationSource)
+	}
+	wire = fmt.Sprintf("M,%s,%s,%s,%s,%d,%d,%d,%s,%s,%s:%s:%s:%s:%d:%s:%s:%s:%s,%s,%s:%s",
+		vlib.B(c.payload), vlib.B(c2s.GetV4Support()), vlib.B(c2s.GetV6Support()), c07OptHex(rg.b), src, int(c2s.GetTransport()), libver,
+		vlib.B(c2s.GetFlags().GetPrescanned()), rr,
+		sel(false), sel(true), paramsOK, tpPort, protoN, vlib.B(geoOK), vlib.B(covertStr != ""), vlib.B(st.live), ident,
+		vlib.B(c2s.GetDisableRegistrarOverrides()), rrOK, rrPort)
+	return wire, selectorOK
+}
+
 // runCell executes one cell on the implementation; returns the model line, the implementation's
 // canonical answer, and evaluates the property oracle.
 func (w *c07World) runCell(st c07Station, c c07Cell, secret []byte) (string, string) {
@@ -436,84 +651,34 @@ func (w *c07World) runCell(st c07Station, c c07Cell, secret []byte) (string, str
 	w.reset(rm)
 	w.live = st.live
 	replay := "c07cell|" + st.String() + "/" + c.String() + "/" + hex.EncodeToString(secret)
+	cells := [2]c07Cell{c, c.second()}
 
-	var raw []byte
-	if c.garbage {
-		raw = []byte{0x0a, 0xff, 0xff, 0xff} // length prefix running past the end
-	} else {
-		var err error
-		raw, err = proto.Marshal(c.wrapper(secret))
-		if err != nil {
-			w.t.Fatal(err)
+	var raws [2][]byte
+	for i, cc := range cells {
+		if cc.garbage {
+			raws[i] = []byte{0x0a, 0xff, 0xff, 0xff} // length prefix running past the end
+		} else {
+			var err error
+			raws[i], err = proto.Marshal(cc.wrapper(secret))
+			if err != nil {
+				w.t.Fatal(err)
+			}
 		}
 	}
 
 	// ---- library verdicts for the model line (real calls)
 	cfgLine := fmt.Sprintf("%s,%s,%s,%d %d,%s", vlib.B(st.e4), vlib.B(st.e6), vlib.B(st.share), int(pb.TransportType_Min), int(pb.TransportType_Prefix), c07BlocklistLine(st.block))
-	var wire string
+	wire1, selOK := w.wire(rm, st, cells[0], secret)
+	wire2 := "D" // D = the same message again
+	if c.dup != c07DupSame && !c.garbage {
+		wire2, _ = w.wire(rm, st, cells[1], secret)
+	}
 	var fams [2]c07Fam
-	if c.garbage {
-		wire = "G"
-	} else {
-		var c2s *pb.ClientToStation
-		if c.payload {
-			c2s = c.wrapper(secret).RegistrationPayload
-		}
-		libver := uint(c2s.GetClientLibVersion())
-		keys, err := core.GenSharedKeys(libver, secret, c2s.GetTransport())
-		if err != nil {
-			w.t.Fatal(err)
-		}
-		sel := func(v6 bool) string {
-			p, err := rm.PhantomSelector.Select(keys.ConjureSeed, uint(c2s.GetDecoyListGeneration()), libver, v6)
-			if err != nil {
-				return "-"
-			}
-			// the selector hands out an address of the requested family (C14); the model relies on it
-			if (p.IP().To4() == nil) != v6 || p.IP().To16() == nil {
-				w.out.OracleFail("C07:selector-wrong-family", fmt.Sprintf("Select(v6=%v) returned %v", v6, p.IP()), replay)
-			}
-			return hex.EncodeToString(*p.IP()) + "/" + vlib.B(p.SupportRandomPort())
-		}
-		paramsOK, tpPort, protoN, ident := "0", "-", 0, "00"
-		if t, ok := rm.registeredDecoys.transports[c2s.GetTransport()]; ok {
-			params, err := t.ParseParams(libver, c2s.GetTransportParams())
-			if err == nil {
-				paramsOK = "1"
-				if p, err := t.GetDstPort(libver, keys.ConjureSeed, params); err == nil {
-					tpPort = fmt.Sprint(p)
-				}
-			}
-			protoN = int(t.GetProto())
-			ident = hex.EncodeToString([]byte(t.GetIdentifier(&DecoyRegistration{Keys: &keys, Transport: c2s.GetTransport()})))
-		}
-		covertStr, _ := rm.ParseOrResolveBlocklisted(c2s.GetCovertAddress())
-		rg := c07Registrants[c.registrant]
-		geoOK := !(c07Geo{}).isErr(net.IP(rg.b))
-		rr := "-"
-		if ov := c07Overrides[c.override]; ov.port != nil || ov.v4 != nil || ov.v6 != nil {
-			f := []string{"-", "-", c07OptHex(ov.v6)}
-			if ov.port != nil {
-				f[0] = fmt.Sprint(*ov.port)
-			}
-			if ov.v4 != nil {
-				f[1] = fmt.Sprint(*ov.v4)
-			}
-			rr = strings.Join(f, ":")
-		}
-		src := 0
-		if wr := c.wrapper(secret); wr.RegistrationSource != nil {
-			src = int(*wr.RegistrationSource)
-		}
-		wire = fmt.Sprintf("M,%s,%s,%s,%s,%d,%d,%d,%s,%s,%s:%s:%s:%s:%d:%s:%s:%s:%s",
-			vlib.B(c.payload), vlib.B(c2s.GetV4Support()), vlib.B(c2s.GetV6Support()), c07OptHex(rg.b), src, int(c2s.GetTransport()), libver,
-			vlib.B(c2s.GetFlags().GetPrescanned()), rr,
-			sel(false), sel(true), paramsOK, tpPort, protoN, vlib.B(geoOK), vlib.B(covertStr != ""), vlib.B(st.live), ident)
-
+	if !c.garbage {
 		// ---- direct per-family construction (what NewRegistrationC2SWrapper answers on its own)
 		for i, v6 := range []bool{false, true} {
 			parsed := &pb.C2SWrapper{}
-			if err := proto.Unmarshal(raw, parsed); err != nil {
+			if err := proto.Unmarshal(raws[0], parsed); err != nil {
 				w.t.Fatal(err)
 			}
 			if parsed.GetRegistrationAddress() == nil {
@@ -534,11 +699,17 @@ func (w *c07World) runCell(st c07Station, c c07Cell, secret []byte) (string, str
 		}
 	}
 
-	// ---- two passes through the real ingest path: the message, then the same message again
+	// ---- two passes through the real ingest path: the message, then the second message of the session
 	var passes [2]c07Pass
 	for pi := range passes {
 		p := &passes[pi]
 		w.rec.take()
+		// which registration of this pass may be shared (its request is then waited for)
+		var shareFam [2]bool
+		for fi, v6 := range []bool{false, true} {
+			fresh := pi == 0 || !passes[0].fam[fi].tracked
+			shareFam[fi] = fresh && c07Expect(st, cells[pi], v6).mayShare
+		}
 		var regs []*DecoyRegistration
 		var err error
 		func() {
@@ -548,7 +719,7 @@ func (w *c07World) runCell(st c07Station, c c07Cell, secret []byte) (string, str
 					p.parse = "panic"
 				}
 			}()
-			regs, err = rm.parseRegMessage(raw)
+			regs, err = rm.parseRegMessage(raws[pi])
 		}()
 		if p.parse == "" {
 			if err != nil {
@@ -563,6 +734,10 @@ func (w *c07World) runCell(st c07Station, c c07Cell, secret []byte) (string, str
 			if reg == nil {
 				continue
 			}
+			fi := 0
+			if reg.PhantomIp.To4() == nil {
+				fi = 1
+			}
 			func() {
 				defer func() {
 					if r := recover(); r != nil {
@@ -571,7 +746,7 @@ func (w *c07World) runCell(st c07Station, c c07Cell, secret []byte) (string, str
 				}()
 				rm.ingestRegistration(reg)
 			}()
-			w.quiesce()
+			w.quiesce(shareFam[fi])
 			evs := w.rec.take()
 			p.evs = append(p.evs, evs...)
 			// canonical order within one registration: probes, shares, announcements (the share
@@ -630,9 +805,15 @@ func (w *c07World) runCell(st c07Station, c c07Cell, secret []byte) (string, str
 		k := fams[0].kind + "," + fams[1].kind
 		impl = k + ";" + passes[0].parse + ";" + passes[0].evsStr + ";" + passes[0].state + "|" + k + ";" + passes[1].parse + ";" + passes[1].evsStr + ";" + passes[1].state
 	}
-	model := "c07|" + cfgLine + "|" + wire + "|D" // D = the same message again
+	model := "c07|" + cfgLine + "|" + wire1 + "|" + wire2
 
-	w.oracle(st, c, fams, passes, replay)
+	if !selOK {
+		// the assumption SelectorFam does not hold for this cell: the expectations below are not
+		// defined (the correspondence still is); the selector itself is C14's subject
+		w.out.Count("assumption-broken:selector-wrong-family")
+	} else {
+		w.oracle(st, cells, fams, passes, replay)
+	}
 	return model, impl
 }
 
@@ -689,7 +870,13 @@ func c07Expect(st c07Station, c c07Cell, v6 bool) c07Want {
 		fail(g.has4, "generation has subnets of the family")
 	}
 	fail(tr.enabled, "enabled transport")
-	fail(tr.paramsOK, "transport parameters parse")
+	// the parameters in force: the registrar's when the response carries some and the client did not
+	// disable registrar overrides, else the client's
+	paramsOK := tr.paramsOK
+	if ov.tparams != 0 && !c.disableOv {
+		paramsOK = ov.tparams == 1
+	}
+	fail(paramsOK, "transport parameters parse")
 	if v6 {
 		fail(ov.v6OK, "phantom override is an address of the family")
 	}
@@ -700,7 +887,7 @@ func c07Expect(st c07Station, c c07Cell, v6 bool) c07Want {
 	if v6 {
 		blocked = st.block == 2 && (ov.v6 == nil || ov.v6Inside)
 	} else {
-		blocked = st.block == 1 && (ov.v4 == nil || ov.v4Inside)
+		blocked = st.block == 1 && (!ov.v4Applied() || ov.v4Inside)
 	}
 	detector := c07Sources[c.source] == pb.RegistrationSource_Detector
 	fail(!blocked, "phantom not blocklisted")
@@ -716,7 +903,18 @@ func c07Expect(st c07Station, c c07Cell, v6 bool) c07Want {
 	return w
 }
 
-func (w *c07World) oracle(st c07Station, c c07Cell, fams [2]c07Fam, passes [2]c07Pass, replay string) {
+func (w *c07World) oracle(st c07Station, cells [2]c07Cell, fams [2]c07Fam, passes [2]c07Pass, replay string) {
+	// pass 1: nothing is tracked; pass 2: a registration that pass 1 left tracked is a duplicate
+	// (nothing may happen), one that pass 1 did not track is judged afresh on the second message
+	w.oraclePass(st, cells[0], fams, &passes[0], nil, replay, "")
+	w.oraclePass(st, cells[1], fams, &passes[1], &passes[0], replay, "second message: ")
+	if passes[0].parse == "panic" || passes[1].parse == "panic" || strings.Contains(passes[0].evsStr, "panic") || strings.Contains(passes[1].evsStr, "panic") || fams[0].kind == "panic" || fams[1].kind == "panic" {
+		w.out.OracleFail("C07:panic", "ingest panicked", replay)
+	}
+}
+
+// oraclePass evaluates one message. prev = the pass before it (nil: empty registry).
+func (w *c07World) oraclePass(st c07Station, c c07Cell, fams [2]c07Fam, pass, prev *c07Pass, replay, tag string) {
 	out := w.out
 	famName := []string{"IPv4", "IPv6"}
 	count := func(evs []c07Event, kind byte, phantom string) (n int, first int) {
@@ -730,29 +928,54 @@ func (w *c07World) oracle(st c07Station, c c07Cell, fams [2]c07Fam, passes [2]c0
 		}
 		return
 	}
-	wants := [2]c07Want{c07Expect(st, c, false), c07Expect(st, c, true)}
-	probesWanted, probeSeq := 0, 0
+	var wants [2]c07Want
+	var fresh [2]bool
+	for i, v6 := range []bool{false, true} {
+		fresh[i] = prev == nil || !prev.fam[i].tracked
+		if fresh[i] {
+			wants[i] = c07Expect(st, c, v6)
+		} else {
+			wants[i] = c07Want{why: "the registration is already tracked (duplicate)"}
+		}
+	}
+	probesWanted, probeSeq, admitsWanted := 0, 0, 0
 	for i := range fams {
 		want, f := wants[i], fams[i]
 		// ---- admitted iff every condition holds
 		announced := 0
 		if f.reg != nil {
-			announced, _ = count(passes[0].evs, 'A', c07Canon(f.reg.PhantomIp))
+			announced, _ = count(pass.evs, 'A', c07Canon(f.reg.PhantomIp))
 		}
-		connect := f.reg != nil && passes[0].fam[i].connect
+		connect := f.reg != nil && pass.fam[i].connect
+		wasConnect := prev != nil && prev.fam[i].connect
 		out.Checked()
 		dropped := want.admit && !(connect && announced == 1)
 		switch {
 		case dropped:
 			sig := "C07:admissible-not-admitted"
-			if passes[0].parse == "err" && fams[1-i].kind != "ok" && fams[i].kind == "ok" {
+			if pass.parse == "err" && fams[1-i].kind != "ok" && fams[i].kind == "ok" {
 				sig = "C07:admissible-family-dropped-with-failing-twin"
 			}
-			out.OracleFail(sig, fmt.Sprintf("the %s registration satisfies every admission condition but connectable=%v announced=%d (parseRegMessage: %s, construction v4/v6: %s/%s)",
-				famName[i], connect, announced, passes[0].parse, fams[0].kind, fams[1].kind), replay)
-		case !want.admit && (connect || announced > 0):
+			out.OracleFail(sig, fmt.Sprintf("%sthe %s registration satisfies every admission condition but connectable=%v announced=%d (parseRegMessage: %s, construction v4/v6: %s/%s)",
+				tag, famName[i], connect, announced, pass.parse, fams[0].kind, fams[1].kind), replay)
+		case !want.admit && fresh[i] && (connect || announced > 0):
 			out.OracleFail("C07:admitted-without:"+strings.ReplaceAll(want.why, " ", "-"),
-				fmt.Sprintf("the %s registration is connectable=%v announced=%d although this does not hold: %s", famName[i], connect, announced, want.why), replay)
+				fmt.Sprintf("%sthe %s registration is connectable=%v announced=%d although this does not hold: %s", tag, famName[i], connect, announced, want.why), replay)
+		case !fresh[i] && announced > 0:
+			out.OracleFail("C07:duplicate-has-effects", fmt.Sprintf("%sthe %s registration was already tracked and is announced (%d)", tag, famName[i], announced), replay)
+		case !fresh[i] && connect != wasConnect:
+			out.OracleFail("C07:duplicate-changes-validity", fmt.Sprintf("%s%s registration (already tracked): connectable %v→%v", tag, famName[i], wasConnect, connect), replay)
+		}
+		if want.admit {
+			admitsWanted++
+		}
+		// ---- announced with the port and protocol of the registration
+		if f.reg != nil {
+			for _, e := range pass.evs {
+				if e.kind == 'A' && e.phantom == c07Canon(f.reg.PhantomIp) && (e.port != int(f.reg.PhantomPort) || e.proto != int(f.reg.PhantomProto)) {
+					out.OracleFail("C07:announced-other-port", fmt.Sprintf("%sthe %s registration is for port %d proto %d, announced with port %d proto %d", tag, famName[i], f.reg.PhantomPort, f.reg.PhantomProto, e.port, e.proto), replay)
+				}
+			}
 		}
 		// ---- a probe exactly when one is required
 		if want.probe {
@@ -762,34 +985,55 @@ func (w *c07World) oracle(st c07Station, c c07Cell, fams [2]c07Fam, passes [2]c0
 			probesWanted-- // the missing probe is part of the failure reported above
 		}
 		if f.reg != nil && !dropped {
-			n, pseq := count(passes[0].evs, 'P', f.reg.PhantomIp.String())
+			n, pseq := count(pass.evs, 'P', f.reg.PhantomIp.String())
 			out.Checked()
 			if want.probe && n != 1 {
-				out.OracleFail("C07:probe-missing", fmt.Sprintf("the %s registration requires a liveness probe, %d sent", famName[i], n), replay)
+				out.OracleFail("C07:probe-missing", fmt.Sprintf("%sthe %s registration requires a liveness probe, %d sent", tag, famName[i], n), replay)
 			}
 			if !want.probe && n != 0 {
-				out.OracleFail("C07:probe-not-required", fmt.Sprintf("the %s registration: %d liveness probe(s) although none is required", famName[i], n), replay)
+				out.OracleFail("C07:probe-not-required", fmt.Sprintf("%sthe %s registration: %d liveness probe(s) although none is required", tag, famName[i], n), replay)
+			}
+			for _, e := range pass.evs {
+				if e.kind == 'P' && e.phantom == f.reg.PhantomIp.String() && e.port != int(f.reg.PhantomPort) {
+					out.OracleFail("C07:probe-other-port", fmt.Sprintf("%sthe %s registration is for port %d, probed on port %d", tag, famName[i], f.reg.PhantomPort, e.port), replay)
+				}
 			}
 			if i == 0 {
 				probeSeq = pseq
 			}
 		}
-		// ---- the duplicate pass changes nothing but the counter
-		if f.reg != nil {
-			a, b := passes[0].fam[i], passes[1].fam[i]
+		// ---- a registration that was already tracked: nothing changes but the counter
+		if f.reg != nil && prev != nil && !fresh[i] {
+			a, b := prev.fam[i], pass.fam[i]
 			out.Checked()
 			if a.valid != b.valid || a.connect != b.connect || a.tracked != b.tracked {
-				out.OracleFail("C07:duplicate-changes-validity", fmt.Sprintf("%s registration: valid %v→%v connectable %v→%v", famName[i], a.valid, b.valid, a.connect, b.connect), replay)
+				out.OracleFail("C07:duplicate-changes-validity", fmt.Sprintf("%s%s registration: valid %v→%v connectable %v→%v", tag, famName[i], a.valid, b.valid, a.connect, b.connect), replay)
 			}
 		}
 	}
 	out.Checked()
-	if n, _ := count(passes[0].evs, 'P', ""); n != probesWanted {
-		out.OracleFail("C07:probe-count", fmt.Sprintf("%d probe(s) sent, %d required", n, probesWanted), replay)
+	if n, _ := count(pass.evs, 'P', ""); n != probesWanted {
+		sig := "C07:probe-count"
+		if prev != nil && !fresh[0] && !fresh[1] {
+			sig = "C07:duplicate-has-effects"
+		}
+		out.OracleFail(sig, fmt.Sprintf("%s%d probe(s) sent, %d required", tag, n, probesWanted), replay)
+	}
+	// ---- whatever is announced is one of the admissible registrations of this message; nothing is updated
+	out.Checked()
+	if n, _ := count(pass.evs, 'A', ""); n > admitsWanted {
+		sig := "C07:announced-more-than-admissible"
+		if prev != nil && !fresh[0] && !fresh[1] {
+			sig = "C07:duplicate-has-effects"
+		}
+		out.OracleFail(sig, fmt.Sprintf("%s%d announcement(s), %d registration(s) of the message satisfy every admission condition", tag, n, admitsWanted), replay)
+	}
+	if n, _ := count(pass.evs, 'U', ""); n != 0 {
+		out.OracleFail("C07:update-announced-at-ingest", fmt.Sprintf("%s%d update announcement(s) during ingest", tag, n), replay)
 	}
 	// ---- sharing with peer stations
 	nShare := 0
-	for _, e := range passes[0].evs {
+	for _, e := range pass.evs {
 		if e.kind != 'S' {
 			continue
 		}
@@ -801,39 +1045,37 @@ func (w *c07World) oracle(st c07Station, c c07Cell, fams [2]c07Fam, passes [2]c0
 			continue
 		}
 		if !sh.GetRegistrationPayload().GetFlags().GetPrescanned() || sh.GetRegistrationSource() != pb.RegistrationSource_DetectorPrescan {
-			out.OracleFail("C07:share-not-marked-prescanned", fmt.Sprintf("shared copy: prescanned=%v source=%s", sh.GetRegistrationPayload().GetFlags().GetPrescanned(), sh.GetRegistrationSource()), replay)
+			out.OracleFail("C07:share-not-marked-prescanned", fmt.Sprintf("%sshared copy: prescanned=%v source=%s", tag, sh.GetRegistrationPayload().GetFlags().GetPrescanned(), sh.GetRegistrationSource()), replay)
 		}
 		if e.phantom != c07Endpoint {
 			out.OracleFail("C07:share-wrong-endpoint", e.phantom, replay)
 		}
 		if c07Sources[c.source] != pb.RegistrationSource_Detector {
-			out.OracleFail("C07:shared-non-detector-registration", fmt.Sprintf("source %s", c07Sources[c.source]), replay)
+			out.OracleFail("C07:shared-non-detector-registration", fmt.Sprintf("%ssource %s", tag, c07Sources[c.source]), replay)
 		}
 		if !(wants[0].mayShare || wants[1].mayShare) {
 			why := "no registration of the message passed validation, covert policy and liveness"
-			if c.v4s && c.v6s {
+			if prev != nil && !fresh[0] && !fresh[1] {
+				why = "the client registration is already tracked: it was shared, or dropped, when it was first ingested"
+			} else if c.v4s && c.v6s {
 				why = "only the IPv6 twin of a dual-stack registration was left to share (or the IPv4 twin failed)"
 			}
-			out.OracleFail("C07:share-not-allowed", why, replay)
+			sig := "C07:share-not-allowed"
+			if prev != nil && !fresh[0] && !fresh[1] {
+				sig = "C07:duplicate-has-effects"
+			}
+			out.OracleFail(sig, tag+why, replay)
 		}
 		if wants[0].mayShare && !c.prescanned {
 			// it is the IPv4 registration that is shared: its probe came first and said "not live"
 			if probeSeq == 0 || probeSeq > e.seq || st.live {
-				out.OracleFail("C07:share-before-liveness", fmt.Sprintf("share request seq %d, probe seq %d, live=%v", e.seq, probeSeq, st.live), replay)
+				out.OracleFail("C07:share-before-liveness", fmt.Sprintf("%sshare request seq %d, probe seq %d, live=%v", tag, e.seq, probeSeq, st.live), replay)
 			}
 		}
 	}
 	out.Checked()
 	if nShare > 1 {
-		out.OracleFail("C07:shared-more-than-once", fmt.Sprintf("%d share requests for one client registration", nShare), replay)
-	}
-	// ---- duplicate pass: nothing is probed, shared or announced again
-	out.Checked()
-	if len(passes[1].evs) != 0 {
-		out.OracleFail("C07:duplicate-has-effects", fmt.Sprintf("re-sending the message caused %s", passes[1].evsStr), replay)
-	}
-	if passes[0].parse == "panic" || passes[1].parse == "panic" || strings.Contains(passes[0].evsStr, "panic") || fams[0].kind == "panic" || fams[1].kind == "panic" {
-		out.OracleFail("C07:panic", "ingest panicked", replay)
+		out.OracleFail("C07:shared-more-than-once", fmt.Sprintf("%s%d share requests for one client registration", tag, nShare), replay)
 	}
 }
 
@@ -864,8 +1106,15 @@ func c07Setup(t *testing.T, out *vlib.Out) *c07World {
 			}
 		}
 	}
-	time.Sleep(10 * time.Millisecond)
+	// the idle level: the lowest of a series of samples (a goroutine that is just finishing must not
+	// be counted into it)
 	w.base = runtime.NumGoroutine()
+	for i := 0; i < 30; i++ {
+		time.Sleep(time.Millisecond)
+		if n := runtime.NumGoroutine(); n < w.base {
+			w.base = n
+		}
+	}
 	return w
 }
 
@@ -905,10 +1154,13 @@ func TestVerifC07(t *testing.T) {
 		}
 		return s
 	}
+	ncell := 0
 	run := func(st c07Station, c c07Cell) {
+		ncell++
 		m, i := w.runCell(st, c, c07Secret(r))
 		out.Case(m, i, true)
 		out.Count("parse:" + strings.SplitN(strings.SplitN(i, ";", 3)[1], "=", 2)[0])
+		out.Count(fmt.Sprintf("second-message:%d", c.dup))
 	}
 
 	// corpus first: the dual-stack message for a generation without IPv6 subnets (and its mirror)
@@ -925,7 +1177,71 @@ func TestVerifC07(t *testing.T) {
 			run(st, c07Cell{payload: false, v4s: true, v6s: true, registrant: 1, source: src, libver: 4})
 		}
 	}
-	// the table
+
+	// ---- one condition at a time: from admitted base cells (API- and detector-sourced, every client
+	// family support) ONE dimension is moved through ALL its values, on every station; then every kind
+	// of second message on the base cells. This mirrors the flip_* lemmas one to one and reaches every
+	// value of every dimension in the quick tier.
+	for _, st := range stations {
+		for _, sup := range [][2]bool{{true, true}, {true, false}, {false, true}} {
+			for _, baseSrc := range []int{0, 1} {
+				b := c07Cell{payload: true, v4s: sup[0], v6s: sup[1], registrant: 1, source: baseSrc, transport: 0, gen: 0, libver: 4, covert: 0}
+				for v := range c07Registrants {
+					c := b
+					c.registrant = v
+					run(st, c)
+				}
+				if baseSrc == 0 {
+					for v := range c07Sources {
+						c := b
+						c.source = v
+						run(st, c)
+						c.prescanned = true
+						run(st, c)
+					}
+				}
+				for v := range c07Transports {
+					c := b
+					c.transport = v
+					run(st, c)
+				}
+				for v := range c07Gens {
+					c := b
+					c.gen = v
+					run(st, c)
+				}
+				for v := range c07Coverts {
+					c := b
+					c.covert = v
+					run(st, c)
+				}
+				for v := range c07Overrides {
+					c := b
+					c.override = v
+					run(st, c)
+					if c07Overrides[v].tparams != 0 {
+						c.disableOv = true
+						run(st, c)
+						c.transport = 2 // client parameters that do not parse, replaced (or not) by the registrar's
+						run(st, c)
+						c.disableOv = false
+						run(st, c)
+					}
+				}
+				for _, ps := range []bool{false, true} {
+					for d := 0; d < c07DupKinds; d++ {
+						c := b
+						c.prescanned, c.dup = ps, d
+						run(st, c)
+						c.covert = 1
+						run(st, c)
+					}
+				}
+			}
+		}
+	}
+
+	// ---- the table; the second message of the session cycles through its kinds
 	for _, st := range stations {
 		for _, sup := range [][2]bool{{true, true}, {true, false}, {false, true}, {false, false}} {
 			for _, rg := range pick(4, len(c07Registrants)) {
@@ -934,8 +1250,32 @@ func TestVerifC07(t *testing.T) {
 						for _, g := range pick(4, len(c07Gens)) {
 							for _, ps := range []bool{false, true} {
 								for _, cv := range pick(2, len(c07Coverts)) {
-									for _, ov := range pick(3, len(c07Overrides)) {
-										run(st, c07Cell{payload: true, v4s: sup[0], v6s: sup[1], registrant: rg, source: src, transport: tr, gen: g, libver: 4, prescanned: ps, covert: cv, override: ov})
+									for _, ov := range pick(3, 5) {
+										run(st, c07Cell{payload: true, v4s: sup[0], v6s: sup[1], registrant: rg, source: src, transport: tr, gen: g, libver: 4, prescanned: ps, covert: cv, override: ov,
+											dup: ncell % c07DupKinds})
+									}
+								}
+							}
+						}
+					}
+				}
+			}
+		}
+	}
+	// thorough tier: the remaining sources (bidirectional API, DNS, bidirectional DNS, unspecified) on the quick-tier table
+	if thorough {
+		for _, st := range stations {
+			for _, sup := range [][2]bool{{true, true}, {true, false}, {false, true}, {false, false}} {
+				for rg := 0; rg < 4; rg++ {
+					for src := 3; src < len(c07Sources); src++ {
+						for tr := 0; tr < 2; tr++ {
+							for g := 0; g < 4; g++ {
+								for _, ps := range []bool{false, true} {
+									for cv := 0; cv < 2; cv++ {
+										for ov := 0; ov < 3; ov++ {
+											run(st, c07Cell{payload: true, v4s: sup[0], v6s: sup[1], registrant: rg, source: src, transport: tr, gen: g, libver: 4, prescanned: ps, covert: cv, override: ov,
+												dup: ncell % c07DupKinds})
+										}
 									}
 								}
 							}
@@ -951,13 +1291,13 @@ func TestVerifC07(t *testing.T) {
 			for _, g := range []int{0, 1, 2, 4} {
 				for _, sup := range [][2]bool{{true, true}, {true, false}, {false, true}} {
 					for _, src := range []int{0, 1} {
-						run(st, c07Cell{payload: true, v4s: sup[0], v6s: sup[1], registrant: 1, source: src, transport: 0, gen: g, libver: lv})
+						run(st, c07Cell{payload: true, v4s: sup[0], v6s: sup[1], registrant: 1, source: src, transport: 0, gen: g, libver: lv, dup: ncell % c07DupKinds})
 					}
 				}
 			}
 		}
 	}
-	out.Note(fmt.Sprintf("stations=%d thorough=%v", len(stations), thorough))
+	out.Note(fmt.Sprintf("stations=%d cells=%d thorough=%v", len(stations), ncell, thorough))
 }
 
 func c07Replay(w *c07World, path string) {
@@ -981,13 +1321,15 @@ func c07Replay(w *c07World, path string) {
 		m, i := w.runCell(st, c, secret)
 		w.out.Case(m, i, true)
 		fmt.Printf("REPLAY station: v4=%v v6=%v share=%v blocklist=%v live=%v\n", st.e4, st.e6, st.share, c07Blocklists[st.block], st.live)
-		fmt.Printf("REPLAY message: v4support=%v v6support=%v registrant=%s source=%s transport=%s generation=%d libver=%d prescanned=%v covert=%q override=%s\n",
-			c.v4s, c.v6s, c07Registrants[c.registrant].name, c07Sources[c.source], c07Transports[c.transport].name, c07Gens[c.gen].gen, c.libver, c.prescanned, c07Coverts[c.covert].addr, c07Overrides[c.override].name)
+		for k, cc := range []c07Cell{c, c.second()} {
+			fmt.Printf("REPLAY message %d: v4support=%v v6support=%v registrant=%s source=%s transport=%s generation=%d libver=%d prescanned=%v covert=%q override=%s disable_registrar_overrides=%v\n",
+				k+1, cc.v4s, cc.v6s, c07Registrants[cc.registrant].name, c07Sources[cc.source], c07Transports[cc.transport].name, c07Gens[cc.gen].gen, cc.libver, cc.prescanned, c07Coverts[cc.covert].addr, c07Overrides[cc.override].name, cc.disableOv)
+		}
 		fmt.Println("REPLAY model-line:", m)
 		fmt.Println("REPLAY impl      :", i)
 		for fi, v6 := range []bool{false, true} {
 			want := c07Expect(st, c, v6)
-			fmt.Printf("REPLAY expected %s: admit=%v (first failing condition: %q) probe=%v\n", []string{"IPv4", "IPv6"}[fi], want.admit, want.why, want.probe)
+			fmt.Printf("REPLAY expected %s (first message, empty registry): admit=%v (first failing condition: %q) probe=%v\n", []string{"IPv4", "IPv6"}[fi], want.admit, want.why, want.probe)
 		}
 	}
 }
